@@ -22,24 +22,53 @@ Lemma es_realloc_spec ow q size extra : inv ow sq q ->
 Proof.
   intros I q'. subst q'. unfold es_realloc. cbv zeta.
   set (newlen := Nat.max sq (Nat.max (size + extra) (cnt q))).
-  pose proof (inv_sq _ _ q I) as Hsq.
+  pose proof (inv_sq _ _ q I) as Hsq. pose proof (inv_inl _ _ q I) as Hin. unfold inl_ok in Hin.
+  pose proof (inv_store _ _ q I) as Hst. unfold store_ok in Hst.
   rewrite abs_length.
-  assert (Hlen : length (abs q ++ repeat (fresh ow jk) (newlen - cnt q)) = newlen)
-    by (autorewrite with nthdb; lia).
-  split; [|split; [|split]].
-  - constructor; unfold store_ok, clean, qsize; cbn [st arr cnt head tail]; rewrite ?Hlen.
-    + exact Hsq.
-    + lia.
-    + lia.
-    + intros Hc. rewrite intern_head0; [reflexivity|reflexivity|]. unfold qsize. cbn [arr]. lia.
-    + destruct (st q); dif; lia.
-    + intros Ho i Hi. rewrite getu_head0; [|reflexivity|unfold qsize; cbn [arr]; lia].
-      cbn [arr]. rewrite nth_app', abs_length, nth_repeat'. unfold fresh. rewrite Ho. dif; fin.
-  - apply abs_ext; rewrite abs_length; cbn [cnt]; [reflexivity|].
-    intros i Hi. rewrite getu_head0; [|reflexivity|unfold qsize; cbn [arr]; lia].
-    cbn [arr]. rewrite nth_app', abs_length. dif; fin.
-  - reflexivity.
-  - unfold qsize. cbn [arr]. lia.
+  destruct (match st q with SSmall => false | _ => newlen <=? sq end) eqn:Ets.
+  - (* into the in-object array, which keeps whatever it held beyond the copied items *)
+    assert (Hns : st q <> SSmall) by (destruct (st q); congruence).
+    destruct (Hin Hns) as [Hl Hd].
+    assert (Hnl : newlen = sq) by (destruct (st q); try congruence; lia).
+    assert (Hlen : length (abs q ++ skipn (cnt q) (inl q)) = sq) by (autorewrite with nthdb; lia).
+    split; [|split; [|split]].
+    + constructor; unfold store_ok, clean, inl_ok, qsize; cbn [st arr cnt head tail inl]; rewrite ?Hlen.
+      * exact Hsq.
+      * lia.
+      * lia.
+      * intros Hc. rewrite intern_head0; [reflexivity|reflexivity|]. unfold qsize. cbn [arr]. lia.
+      * reflexivity.
+      * intros Ho i Hi. rewrite getu_head0; [|reflexivity|unfold qsize; cbn [arr]; lia].
+        cbn [arr]. rewrite nth_app', abs_length, nth_skipn'. dif; [lia|]. apply (Hd Ho). lia.
+      * intros H. congruence.
+    + apply abs_ext; rewrite abs_length; cbn [cnt]; [reflexivity|].
+      intros i Hi. rewrite getu_head0; [|reflexivity|unfold qsize; cbn [arr]; lia].
+      cbn [arr]. rewrite nth_app', abs_length. dif; fin.
+    + reflexivity.
+    + unfold qsize. cbn [arr]. lia.
+  - (* into a fresh heap array *)
+    assert (Hlen : length (abs q ++ repeat (fresh ow jk) (newlen - cnt q)) = newlen)
+      by (autorewrite with nthdb; lia).
+    split; [|split; [|split]].
+    + constructor; unfold store_ok, clean, inl_ok, qsize; cbn [st arr cnt head tail inl]; rewrite ?Hlen.
+      * exact Hsq.
+      * lia.
+      * lia.
+      * intros Hc. rewrite intern_head0; [reflexivity|reflexivity|]. unfold qsize. cbn [arr]. lia.
+      * lia.
+      * intros Ho i Hi. rewrite getu_head0; [|reflexivity|unfold qsize; cbn [arr]; lia].
+        cbn [arr]. rewrite nth_app', abs_length, nth_repeat'. unfold fresh. rewrite Ho. dif; fin.
+      * intros _. destruct (st q) eqn:Es.
+        -- apply Hin. congruence.
+        -- destruct ow.
+           ++ split; [apply repeat_length|]. intros _ i Hi. rewrite nth_repeat'. dif; reflexivity.
+           ++ split; [exact Hst|discriminate].
+        -- apply Hin. congruence.
+    + apply abs_ext; rewrite abs_length; cbn [cnt]; [reflexivity|].
+      intros i Hi. rewrite getu_head0; [|reflexivity|unfold qsize; cbn [arr]; lia].
+      cbn [arr]. rewrite nth_app', abs_length. dif; fin.
+    + reflexivity.
+    + unfold qsize. cbn [arr]. lia.
 Qed.
 
 (* ------------------------------------------------------------------ setNumItems growing the count *)
@@ -64,17 +93,18 @@ Lemma es_grow_spec ow q size : inv ow sq q -> cnt q < size -> size <= qsize q ->
   inv ow sq q' /\ abs q' = abs q ++ repeat 0%Z (size - cnt q) /\ st q' = st q /\ qsize q' = qsize q.
 Proof.
   intros I Hc Hs q'. subst q'. unfold es_grow. cbv zeta.
-  set (grown := mkQ (st q) (arr q) size (head q) (prev_index q (intern q size))).
+  set (grown := mkQ (st q) (arr q) size (head q) (prev_index q (intern q size)) (inl q)).
   assert (Hh : head q < qsize q) by (apply (inv_head _ _ q I); lia).
   assert (Ig : inv ow sq grown).
-  { constructor; unfold store_ok, clean; cbn [st arr cnt head tail grown];
+  { constructor; unfold store_ok, clean, inl_ok; cbn [st arr cnt head tail inl grown];
       change (qsize grown) with (qsize q).
     - exact (inv_sq _ _ q I).
     - lia.
     - intros _. exact Hh.
     - intros _. rewrite prev_intern by lia. reflexivity.
     - exact (inv_store _ _ q I).
-    - intros Ho i Hi. change (getu grown i) with (getu q i). apply (inv_clean _ _ q I Ho). lia. }
+    - intros Ho i Hi. change (getu grown i) with (getu q i). apply (inv_clean _ _ q I Ho). lia.
+    - exact (inv_inl _ _ q I). }
   destruct ow.
   - split; [exact Ig|]. split; [|split; reflexivity].
     apply abs_ext; autorewrite with nthdb; cbn [cnt grown]; [lia|].
@@ -151,11 +181,11 @@ Qed.
 
 (* adding to an empty queue: both AddTail and AddHead reset head and tail to slot 0 *)
 Lemma add_first_spec ow q x : inv ow sq q -> cnt q = 0 -> 0 < qsize q ->
-  let q' := mkQ (st q) (upd (arr q) 0 x) 1 0 0 in
+  let q' := mkQ (st q) (upd (arr q) 0 x) 1 0 0 (inl q) in
   inv ow sq q' /\ abs q' = [x].
 Proof.
   intros I Hc Hq q'. subst q'. assert (Hq' : 0 < length (arr q)) by exact Hq. split.
-  - constructor; unfold store_ok, clean, qsize; cbn [st arr cnt head tail]; rewrite ?upd_length.
+  - constructor; unfold store_ok, clean, inl_ok, qsize; cbn [st arr cnt head tail inl]; rewrite ?upd_length.
     + exact (inv_sq _ _ q I).
     + unfold qsize in Hq. lia.
     + lia.
@@ -165,6 +195,7 @@ Proof.
     + intros Ho i Hi. rewrite getu_head0; [|reflexivity|unfold qsize; cbn [arr]; rewrite upd_length; lia].
       cbn [arr]. rewrite nth_upd. dif; [lia|].
       apply (all_dflt _ _ q I Hc Ho). unfold qsize. lia.
+    + exact (inv_inl _ _ q I).
   - apply abs_ext; cbn [cnt length]; [reflexivity|].
     intros i Hi. rewrite getu_head0; [|reflexivity|unfold qsize; cbn [arr]; rewrite upd_length; lia].
     cbn [arr]. rewrite nth_upd. unfold qsize in Hq. assert (i = 0) by lia. subst i. dif; fin.
@@ -186,12 +217,12 @@ Proof.
     rewrite Ht, next_intern' by lia. replace (cnt q1 - 1 + 1) with (cnt q1) by lia.
     set (g := setu q1 (cnt q1) x).
     assert (G : forall i, i < qsize q1 ->
-                getu (mkQ (st q1) (upd (arr q1) (intern q1 (cnt q1)) x) (cnt q1 + 1) (head q1) (intern q1 (cnt q1))) i
+                getu (mkQ (st q1) (upd (arr q1) (intern q1 (cnt q1)) x) (cnt q1 + 1) (head q1) (intern q1 (cnt q1)) (inl q1)) i
                 = if i =? cnt q1 then x else getu q1 i).
     { intros i Hi. transitivity (getu g i); [reflexivity|]. subst g. apply getu_setu; lia. }
     split.
-    + constructor; unfold store_ok, clean; cbn [st arr cnt head tail];
-        change (qsize (mkQ _ (upd (arr q1) _ x) _ _ _)) with (qsize g); subst g; rewrite ?qsize_setu.
+    + constructor; unfold store_ok, clean, inl_ok; cbn [st arr cnt head tail inl];
+        change (qsize (mkQ _ (upd (arr q1) _ x) _ _ _ _)) with (qsize g); subst g; rewrite ?qsize_setu.
       * exact (inv_sq _ _ q1 I1).
       * lia.
       * intros _. exact Hh.
@@ -199,6 +230,7 @@ Proof.
         symmetry. apply intern_congr; [reflexivity|]. apply (qsize_setu q1 (cnt q1) x).
       * exact (inv_store _ _ q1 I1).
       * intros Ho i Hi. rewrite G by lia. dif; [lia|]. apply (inv_clean _ _ q1 I1 Ho). lia.
+      * exact (inv_inl _ _ q1 I1).
     + apply abs_ext; autorewrite with nthdb; cbn [cnt length]; [lia|].
       intros i Hi. autorewrite with nthdb in Hi. cbn [length] in Hi.
       rewrite G by lia. rewrite <- A1, nth_app', abs_length. dif.
@@ -224,12 +256,12 @@ Proof.
     pose proof (inv_cnt _ _ q1 I1) as Hc.
     set (h := prev_index q1 (head q1)).
     assert (Hlt : h < qsize q1) by (apply prev_lt; lia).
-    set (q' := mkQ (st q1) (upd (arr q1) h x) (cnt q1 + 1) h (tail q1)).
+    set (q' := mkQ (st q1) (upd (arr q1) h x) (cnt q1 + 1) h (tail q1) (inl q1)).
     assert (Q : qsize q' = qsize q1) by (unfold qsize, q'; cbn [arr]; apply upd_length).
     assert (G : forall i, i < qsize q1 -> getu q' i = if i =? 0 then x else getu q1 (i - 1)).
     { intros i Hi. subst q' h. qunf. rewrite ?upd_length, ?nth_upd. difh; fin. }
     split.
-    + constructor; unfold store_ok, clean; rewrite ?Q; cbn [st arr cnt head tail q'].
+    + constructor; unfold store_ok, clean, inl_ok; rewrite ?Q; cbn [st arr cnt head tail inl q'].
       * exact (inv_sq _ _ q1 I1).
       * lia.
       * intros _. exact Hlt.
@@ -237,6 +269,7 @@ Proof.
         qunf. difh; fin.
       * exact (inv_store _ _ q1 I1).
       * intros Ho i Hi. rewrite G by lia. dif; [lia|]. apply (inv_clean _ _ q1 I1 Ho). lia.
+      * exact (inv_inl _ _ q1 I1).
     + apply abs_ext; cbn [cnt length q']; autorewrite with nthdb; [lia|].
       intros i Hi. rewrite G by lia. rewrite nth_cons'. dif; [reflexivity|].
       rewrite <- A1. symmetry. apply nth_abs. lia.
